@@ -9,6 +9,7 @@ import Dagrt.Driver.C01
 import Dagrt.Driver.C20
 import Dagrt.Driver.C13
 import Dagrt.Driver.C18
+import Dagrt.Driver.C19
 import Dagrt.Driver.C16
 import Dagrt.Driver.C07
 import Dagrt.Driver.C17
@@ -30,6 +31,7 @@ def dispatch (j : Json) : R Json := do
   | ["C17", o] => C17.handle o j
   | ["C18", o] => C18.handle o j
   | ["C20", o] => C20.handle o j
+  | ["C19", o] => C19.handle o j
   | ["C13", o] => C13.handle o j
   | ["C14", o] => Kinds.handle o j
   | ["C09", o] => Kinds.handle o j
